@@ -77,6 +77,12 @@ CHECKS.update({
             P3 + "values are exact small integers/rationals held in float64; no claim about dtypes, rounding, overflow, NaN (DESIGN section 8)."),
 })
 
+CHECKS.update({
+    "C07": ("model_checking", "transfer", "TLC model checking of spec/Transfer.tla (safety + eventual completion under fairness) + TLC -simulate behaviours replayed into two real DataServer objects and a real controller Listener with real payload bytes",
+            "One byte-identical copy, at most one announcement per host and dataset, exact fetches, no resurrection after purge and no data-server failure hold for every loss/duplication/retry pattern of payload and confirmation frames within the bounds; the real data servers follow TLC-generated behaviours step by step (stores incl. bytes and deser_fun, awaiting_confirmation, futures, acks, invalid, Listener.acked, frames in flight, announcements, fetched payloads, failures); the purge handler really blocks in wait() until the behaviour completes the running futures.",
+            "Bounds: 2 hosts + controller, 1-2 datasets, command sequences of 3-4 commands issued as the controller may issue them (C04), <=3 faults, <=2 identical frames in flight; commands/purges delivered exactly once (C06); thread-pool capacity not modelled; harness fakes for network, shm dict, futures, clock."),
+})
+
 NOT_YET = {
 }
 
@@ -111,6 +117,8 @@ def main():
              "kind_free_text": "TLC on spec/Acked.tla + behaviour replay into the real comms layer and endpoint loops"},
             {"name": "gateway", "path": "harness/props/c18.py", "serves_properties": ["C18"],
              "kind_free_text": "TLC on spec/Gateway.tla + behaviour replay into the real router and handlers"},
+            {"name": "transfer", "path": "harness/props/c07.py", "serves_properties": ["C07"],
+             "kind_free_text": "TLC on spec/Transfer.tla + behaviour replay into real DataServer objects"},
             {"name": "shm", "path": "harness/shm_engine.py", "serves_properties": ["C08", "C09"],
              "kind_free_text": "TLC model checking of spec/Shm.tla + TLC-generated behaviours replayed into the real Manager"},
         ],
